@@ -41,7 +41,26 @@ func bigDB(days int, t *rapid.T) *model.DB {
 	for d := 0; d < days; d++ {
 		ts := day0 + int64(d)*86400 + 300*int64(1+d%200)
 		var flows []model.Flow
-		if t != nil {
+		if t != nil && rapid.IntRange(0, 14).Draw(t, fmt.Sprintf("d%d.dense", d)) == 0 {
+			// a dense day: enough distinct flows of both IP versions for the per-worker result maps to use their
+			// overflow buckets and to grow (keys and counters derived from a few draws)
+			n := rapid.IntRange(60, 220).Draw(t, fmt.Sprintf("d%d.ndense", d))
+			base := rapid.IntRange(0, 3).Draw(t, fmt.Sprintf("d%d.base", d)) // overlapping key ranges across days
+			for i := 0; i < n; i++ {
+				k := base*50 + i
+				var f model.Flow
+				if i%3 == 2 {
+					f = gen.FlowOf(fmt.Sprintf("2001:db8:1::%x", k+1), "2001:db8::1", 443, 6)
+				} else {
+					f = gen.FlowOf(fmt.Sprintf("10.20.%d.%d", k/250, 1+k%250), "10.0.0.2", uint16(53+k%3), 17)
+				}
+				f.PR, f.BR = uint64(1+k%5), uint64(64*(1+k%5))
+				if k%4 == 0 {
+					f.PS, f.BS = 1, 60
+				}
+				flows = append(flows, f)
+			}
+		} else if t != nil {
 			n := rapid.IntRange(0, 3).Draw(t, fmt.Sprintf("d%d.n", d))
 			seen := map[string]bool{}
 			for i := 0; i < n; i++ {
